@@ -368,7 +368,7 @@ def run(tier, seed):
                   'concrete AddCashFlow histories': '%d sequences of length <= 3' % len(hs),
                   'RegisterCashFlow sequences through Model.main()': '%d sequences of length <= %d among three sectors' % (len(rc), 2 if tier == 'quick' else 3),
                   'numeric domain': 'all real coefficients and valuations'}
-    chk.assumptions = ['names used as divisors are non-zero', "don't-care: a prior definition spelled as a zero literal other than the rendered '0.0' "
+    chk.assumptions = ['income exclusions are registered before the flows they concern (the exclusion list is consulted when a flow is registered; an exclusion added afterwards is not retroactive - documented behaviour, not claimed)', 'names used as divisors are non-zero', "don't-care: a prior definition spelled as a zero literal other than the rendered '0.0' "
                        "(e.g. '0.') may be kept or replaced", 'an exclusion is in force for flows registered after it (pre-state of the step)',
                        'a defining expression is passed only with a single local name as the flow term']
     chk.outside = ['flow terms with more than one operator', 'exclusions registered after the flow they name']
